@@ -384,12 +384,23 @@ def function_call(tree):
             raise Skip('FunctionCall.type_vars: unknown statement')
     # every check of the class is handed `self.type_vars`
     cls = [n for n in ast.walk(tree) if isinstance(n, ast.ClassDef) and n.name == 'FunctionCall'][0]
+    wrapper_resolved = None
     for n in ast.walk(cls):
-        if isinstance(n, ast.Call) and isinstance(n.func, ast.Name) and n.func.id in ('assert_value_matches_type', 'GeneratorWrapper'):
+        if isinstance(n, ast.Call) and isinstance(n.func, ast.Name) and n.func.id == 'assert_value_matches_type':
             kw = {k.arg: k.value for k in n.keywords}
             if 'type_vars' not in kw or canon(kw['type_vars']) != 'self.type_vars':
                 raise Skip('FunctionCall: a check is not handed self.type_vars')
-    return {'fresh': fresh, 'switch': switch, 'once': once}
+        if isinstance(n, ast.Call) and isinstance(n.func, ast.Name) and n.func.id == 'GeneratorWrapper':
+            # the wrapper checks what the generator yields / returns later on: with the resolved store of the call (`self.type_vars`),
+            # or with the private dict of the FunctionCall (`self._type_vars`), which a method of a pedantic_class instance never fills
+            kw = {k.arg: k.value for k in n.keywords}
+            got = canon(kw['type_vars']) if 'type_vars' in kw else None
+            if got not in ('self.type_vars', 'self._type_vars') or wrapper_resolved not in (None, got == 'self.type_vars'):
+                raise Skip('FunctionCall: GeneratorWrapper is handed something else than self.type_vars / self._type_vars')
+            wrapper_resolved = got == 'self.type_vars'
+    if wrapper_resolved is None:
+        raise Skip('FunctionCall: no GeneratorWrapper(...) call found')
+    return {'fresh': fresh, 'switch': switch, 'once': once, 'wrapper': wrapper_resolved}
 
 
 # ------------------------------------------------------------------ pedantic_class accessor
@@ -557,6 +568,9 @@ def perCallFreshMap : Bool := {lean_bool(fc['fresh'])}
 def instanceAccessorSwitch : Bool := {lean_bool(fc['switch'])}
 /-- `FunctionCall.type_vars` resolves the store once per call and hands the same dict to every check of the call -/
 def resolveOncePerCall : Bool := {lean_bool(fc['once'])}
+/-- `_check_types_return` hands the `GeneratorWrapper` of a generator function the resolved store of the call (`self.type_vars`):
+    what the generator yields / returns later is checked with the bindings of its call (and of its instance) -/
+def generatorGetsResolvedStore : Bool := {lean_bool(fc['wrapper'])}
 
 /-- what the per-instance accessor of `pedantic_class` merges for a generic instance, in `{{**a, **b, **c}}` order -/
 inductive Src where
